@@ -107,12 +107,16 @@ def gen_topology(rng: Prng, n: int, sort_mode: bool):
     if sort_mode:
         pool = rng.sample(list(range(0, max(4 * n, 50))), n) if rng.chance(0.7) else \
             [rng.below(2**31 - 1) for _ in range(n)]
+        if rng.chance(0.08):
+            # 64-bit sample numbers (hashes, database keys): neighbours differ by less than a float64 can tell
+            hi = rng.choice([2**53, 2**60, 2**62])
+            pool = [hi + v for v in rng.sample(list(range(0, 3 * n + 9)), n)]
         if len(set(pool)) != n:
             pool = rng.sample(list(range(0, 4 * n + 50)), n)
         ids = pool
         order = rng.permutation(n)
         return [ids[i] for i in order], [(-1 if parent[i] < 0 else ids[parent[i]]) for i in order]
-    base = rng.choice([0, 1, 1, 1, 2, 17, 1000, 2**31 - 1 - n])
+    base = rng.choice([0, 1, 1, 1, 2, 17, 1000, 2**31 - 1 - n, 2**31 + 5, 2**53 + 1, 2**60 + 7])
     ids = [base + i for i in range(n)]
     pids = [(-1 if p < 0 else base + p) for p in parent]
     if rng.chance(0.08):  # arbitrary ids, plain row order (no sorting asked)
@@ -295,6 +299,8 @@ def generate(rng: Prng, tier: str) -> dict:
         if align["block"] * align["mult"] > 140000:
             align["mult"] = 1
     lines = gen_lines(w, tier, sort_mode, n_extra, encoding, align)
+    # a Tree keeps its ids in 32-bit columns: 64-bit sample numbers only reach it re-based (reset_index=True)
+    wide_ids = any(t[:1] and t[0].lstrip("+").isdigit() and int(t[0]) >= 2**31 for t in (l.split() for l in lines))
     applied: list[str] = []
     byte_faults = []
     if faulting:
@@ -318,6 +324,8 @@ def generate(rng: Prng, tier: str) -> dict:
         elif n_extra:
             # Tree.from_swc keeps the seven standard columns; extra fields are "beyond the requested columns"
             pass
+        if wide_ids and api == "Tree.from_swc":
+            opts["reset_index"] = True
         step = {"source": source, "api": api, "opts": opts, "stream": gen_stream(sp, faulting)}
         if faulting and (mode == "eio_only" or fp.chance(0.1)):
             if s == 0 or fp.chance(0.5):
